@@ -2,9 +2,10 @@
    granularity of harness/vsched (every mutex / condvar operation is one step, every plain
    segment between two of them is one step).  Both structures are protected by one pthread
    mutex with two Mesa condition variables (spurious wake-ups allowed); every access to the
-   shared fields happens in a plain segment executed while the mutex is held, so the hand-over of
-   the payloads follows from the mutex (acquire/release by the interposed pthread semantics) and
-   no view bookkeeping is needed here.  Definitions only. *)
+   shared fields happens in a plain segment executed while the mutex is held, and the
+   hand-over of the payloads goes through the mutex: plain cells (array slots, harness payloads)
+   carry versions, threads carry views, the mutex carries a stamp (unlock / condvar wait = release,
+   lock / wake-up = acquire), ghost counters record uncovered reads.  Definitions only. *)
 From MV Require Export C01.Model.
 Local Open Scope Z_scope.
 
@@ -27,34 +28,67 @@ Inductive qpc :=
 
 Definition q_is_plain (p : qpc) : bool := match p with Q0 | QChk | QAfterSig | QRet => true | _ => false end.
 
-Record qthread := { q_pc : qpc; q_seq : nat; q_todo : nat; q_d : option msg }.
+Record qthread := { q_pc : qpc; q_seq : nat; q_todo : nat; q_d : option msg; q_view : view }.
 Record qsys := {
   q_cap : Z;
-  q_np : nat;                  (* producers: threads 0 .. np-1 *)
+  q_np : nat;
   q_datas : Z -> option msg;
-  q_take : Z; q_put : Z; q_cnt : Z;
-  q_mx : Z;                    (* mutex word: 0 free, 1 held *)
+  q_take : Z;
+  q_put : Z;
+  q_cnt : Z;
+  q_mx : Z;
+  q_mst : view;
+  q_sver : Z -> nat;
   q_pay : msg -> Z;
-  q_putl : list msg;           (* ghost: items in the order they were enqueued (lock order) *)
-  q_taken : list (option msg); (* ghost: items in the order they were dequeued *)
-  q_badwait : nat;             (* ghost: a producer went to sleep although put - taken <> capacity,
-                                  or a consumer although put - taken <> 0 *)
+  q_pver : msg -> nat;
+  q_putl : list msg;
+  q_taken : list (option msg);
+  q_badwait : nat;
+  q_uncov : nat;
   q_thr : nat -> qthread;
 }.
+Definition qw_cap (v : Z) (s : qsys) : qsys :=
+  {| q_cap := v; q_np := q_np s; q_datas := q_datas s; q_take := q_take s; q_put := q_put s; q_cnt := q_cnt s; q_mx := q_mx s; q_mst := q_mst s; q_sver := q_sver s; q_pay := q_pay s; q_pver := q_pver s; q_putl := q_putl s; q_taken := q_taken s; q_badwait := q_badwait s; q_uncov := q_uncov s; q_thr := q_thr s |}.
+Definition qw_np (v : nat) (s : qsys) : qsys :=
+  {| q_cap := q_cap s; q_np := v; q_datas := q_datas s; q_take := q_take s; q_put := q_put s; q_cnt := q_cnt s; q_mx := q_mx s; q_mst := q_mst s; q_sver := q_sver s; q_pay := q_pay s; q_pver := q_pver s; q_putl := q_putl s; q_taken := q_taken s; q_badwait := q_badwait s; q_uncov := q_uncov s; q_thr := q_thr s |}.
+Definition qw_datas (v : Z -> option msg) (s : qsys) : qsys :=
+  {| q_cap := q_cap s; q_np := q_np s; q_datas := v; q_take := q_take s; q_put := q_put s; q_cnt := q_cnt s; q_mx := q_mx s; q_mst := q_mst s; q_sver := q_sver s; q_pay := q_pay s; q_pver := q_pver s; q_putl := q_putl s; q_taken := q_taken s; q_badwait := q_badwait s; q_uncov := q_uncov s; q_thr := q_thr s |}.
+Definition qw_take (v : Z) (s : qsys) : qsys :=
+  {| q_cap := q_cap s; q_np := q_np s; q_datas := q_datas s; q_take := v; q_put := q_put s; q_cnt := q_cnt s; q_mx := q_mx s; q_mst := q_mst s; q_sver := q_sver s; q_pay := q_pay s; q_pver := q_pver s; q_putl := q_putl s; q_taken := q_taken s; q_badwait := q_badwait s; q_uncov := q_uncov s; q_thr := q_thr s |}.
+Definition qw_put (v : Z) (s : qsys) : qsys :=
+  {| q_cap := q_cap s; q_np := q_np s; q_datas := q_datas s; q_take := q_take s; q_put := v; q_cnt := q_cnt s; q_mx := q_mx s; q_mst := q_mst s; q_sver := q_sver s; q_pay := q_pay s; q_pver := q_pver s; q_putl := q_putl s; q_taken := q_taken s; q_badwait := q_badwait s; q_uncov := q_uncov s; q_thr := q_thr s |}.
+Definition qw_cnt (v : Z) (s : qsys) : qsys :=
+  {| q_cap := q_cap s; q_np := q_np s; q_datas := q_datas s; q_take := q_take s; q_put := q_put s; q_cnt := v; q_mx := q_mx s; q_mst := q_mst s; q_sver := q_sver s; q_pay := q_pay s; q_pver := q_pver s; q_putl := q_putl s; q_taken := q_taken s; q_badwait := q_badwait s; q_uncov := q_uncov s; q_thr := q_thr s |}.
+Definition qw_mx (v : Z) (s : qsys) : qsys :=
+  {| q_cap := q_cap s; q_np := q_np s; q_datas := q_datas s; q_take := q_take s; q_put := q_put s; q_cnt := q_cnt s; q_mx := v; q_mst := q_mst s; q_sver := q_sver s; q_pay := q_pay s; q_pver := q_pver s; q_putl := q_putl s; q_taken := q_taken s; q_badwait := q_badwait s; q_uncov := q_uncov s; q_thr := q_thr s |}.
+Definition qw_mst (v : view) (s : qsys) : qsys :=
+  {| q_cap := q_cap s; q_np := q_np s; q_datas := q_datas s; q_take := q_take s; q_put := q_put s; q_cnt := q_cnt s; q_mx := q_mx s; q_mst := v; q_sver := q_sver s; q_pay := q_pay s; q_pver := q_pver s; q_putl := q_putl s; q_taken := q_taken s; q_badwait := q_badwait s; q_uncov := q_uncov s; q_thr := q_thr s |}.
+Definition qw_sver (v : Z -> nat) (s : qsys) : qsys :=
+  {| q_cap := q_cap s; q_np := q_np s; q_datas := q_datas s; q_take := q_take s; q_put := q_put s; q_cnt := q_cnt s; q_mx := q_mx s; q_mst := q_mst s; q_sver := v; q_pay := q_pay s; q_pver := q_pver s; q_putl := q_putl s; q_taken := q_taken s; q_badwait := q_badwait s; q_uncov := q_uncov s; q_thr := q_thr s |}.
+Definition qw_pay (v : msg -> Z) (s : qsys) : qsys :=
+  {| q_cap := q_cap s; q_np := q_np s; q_datas := q_datas s; q_take := q_take s; q_put := q_put s; q_cnt := q_cnt s; q_mx := q_mx s; q_mst := q_mst s; q_sver := q_sver s; q_pay := v; q_pver := q_pver s; q_putl := q_putl s; q_taken := q_taken s; q_badwait := q_badwait s; q_uncov := q_uncov s; q_thr := q_thr s |}.
+Definition qw_pver (v : msg -> nat) (s : qsys) : qsys :=
+  {| q_cap := q_cap s; q_np := q_np s; q_datas := q_datas s; q_take := q_take s; q_put := q_put s; q_cnt := q_cnt s; q_mx := q_mx s; q_mst := q_mst s; q_sver := q_sver s; q_pay := q_pay s; q_pver := v; q_putl := q_putl s; q_taken := q_taken s; q_badwait := q_badwait s; q_uncov := q_uncov s; q_thr := q_thr s |}.
+Definition qw_putl (v : list msg) (s : qsys) : qsys :=
+  {| q_cap := q_cap s; q_np := q_np s; q_datas := q_datas s; q_take := q_take s; q_put := q_put s; q_cnt := q_cnt s; q_mx := q_mx s; q_mst := q_mst s; q_sver := q_sver s; q_pay := q_pay s; q_pver := q_pver s; q_putl := v; q_taken := q_taken s; q_badwait := q_badwait s; q_uncov := q_uncov s; q_thr := q_thr s |}.
+Definition qw_taken (v : list (option msg)) (s : qsys) : qsys :=
+  {| q_cap := q_cap s; q_np := q_np s; q_datas := q_datas s; q_take := q_take s; q_put := q_put s; q_cnt := q_cnt s; q_mx := q_mx s; q_mst := q_mst s; q_sver := q_sver s; q_pay := q_pay s; q_pver := q_pver s; q_putl := q_putl s; q_taken := v; q_badwait := q_badwait s; q_uncov := q_uncov s; q_thr := q_thr s |}.
+Definition qw_badwait (v : nat) (s : qsys) : qsys :=
+  {| q_cap := q_cap s; q_np := q_np s; q_datas := q_datas s; q_take := q_take s; q_put := q_put s; q_cnt := q_cnt s; q_mx := q_mx s; q_mst := q_mst s; q_sver := q_sver s; q_pay := q_pay s; q_pver := q_pver s; q_putl := q_putl s; q_taken := q_taken s; q_badwait := v; q_uncov := q_uncov s; q_thr := q_thr s |}.
+Definition qw_uncov (v : nat) (s : qsys) : qsys :=
+  {| q_cap := q_cap s; q_np := q_np s; q_datas := q_datas s; q_take := q_take s; q_put := q_put s; q_cnt := q_cnt s; q_mx := q_mx s; q_mst := q_mst s; q_sver := q_sver s; q_pay := q_pay s; q_pver := q_pver s; q_putl := q_putl s; q_taken := q_taken s; q_badwait := q_badwait s; q_uncov := v; q_thr := q_thr s |}.
+Definition qw_thr (v : nat -> qthread) (s : qsys) : qsys :=
+  {| q_cap := q_cap s; q_np := q_np s; q_datas := q_datas s; q_take := q_take s; q_put := q_put s; q_cnt := q_cnt s; q_mx := q_mx s; q_mst := q_mst s; q_sver := q_sver s; q_pay := q_pay s; q_pver := q_pver s; q_putl := q_putl s; q_taken := q_taken s; q_badwait := q_badwait s; q_uncov := q_uncov s; q_thr := v |}.
 
 Definition q_is_prod (s : qsys) (t : nat) : bool := Nat.ltb t (q_np s).
-Definition qset (s : qsys) (t : nat) (x : qthread) : qsys :=
-  {| q_cap := q_cap s; q_np := q_np s; q_datas := q_datas s; q_take := q_take s; q_put := q_put s; q_cnt := q_cnt s;
-     q_mx := q_mx s; q_pay := q_pay s; q_putl := q_putl s; q_taken := q_taken s; q_badwait := q_badwait s;
-     q_thr := upd (q_thr s) t x |}.
-Definition qpc_set (x : qthread) (p : qpc) : qthread := {| q_pc := p; q_seq := q_seq x; q_todo := q_todo x; q_d := q_d x |}.
-Definition qmx_set (s : qsys) (v : Z) : qsys :=
-  {| q_cap := q_cap s; q_np := q_np s; q_datas := q_datas s; q_take := q_take s; q_put := q_put s; q_cnt := q_cnt s;
-     q_mx := v; q_pay := q_pay s; q_putl := q_putl s; q_taken := q_taken s; q_badwait := q_badwait s; q_thr := q_thr s |}.
-Definition qbad (s : qsys) (ok : bool) : qsys :=
-  {| q_cap := q_cap s; q_np := q_np s; q_datas := q_datas s; q_take := q_take s; q_put := q_put s; q_cnt := q_cnt s;
-     q_mx := q_mx s; q_pay := q_pay s; q_putl := q_putl s; q_taken := q_taken s;
-     q_badwait := if ok then q_badwait s else S (q_badwait s); q_thr := q_thr s |}.
+Definition qset (s : qsys) (t : nat) (x : qthread) : qsys := qw_thr (upd (q_thr s) t x) s.
+Definition qpc_set (x : qthread) (p : qpc) : qthread :=
+  {| q_pc := p; q_seq := q_seq x; q_todo := q_todo x; q_d := q_d x; q_view := q_view x |}.
+Definition qview_set (x : qthread) (v : view) : qthread :=
+  {| q_pc := q_pc x; q_seq := q_seq x; q_todo := q_todo x; q_d := q_d x; q_view := v |}.
+Definition qmx_set (s : qsys) (v : Z) : qsys := qw_mx v s.
+Definition qbad (s : qsys) (ok : bool) : qsys := qw_badwait (if ok then q_badwait s else S (q_badwait s)) s.
+Definition qunc (s : qsys) (ok : bool) : qsys := qw_uncov (if ok then q_uncov s else S (q_uncov s)) s.
 
 Definition ring_next (i cap : Z) : Z := if Z.eqb (i + 1) cap then 0 else i + 1.
 Definition in_flight (s : qsys) : Z := Z.of_nat (length (q_putl s)) - Z.of_nat (length (q_taken s)).
@@ -90,33 +124,40 @@ Definition qmicro (s : qsys) (t : nat) : option (qsys * list (nat * Z)) :=
     | O => Some (go QFin, [])
     | S _ =>
       if q_is_prod s t then
-        Some ({| q_cap := q_cap s; q_np := q_np s; q_datas := q_datas s; q_take := q_take s; q_put := q_put s;
-                 q_cnt := q_cnt s; q_mx := q_mx s; q_pay := mupd (q_pay s) m (tag m + 1000); q_putl := q_putl s;
-                 q_taken := q_taken s; q_badwait := q_badwait s; q_thr := upd (q_thr s) t (qpc_set x QLock) |},
-              [(n_put, tag m)])
+        (* harness: the producer writes the payload just before put *)
+        let n := S (q_pver s m) in
+        Some (qset (qw_pay (mupd (q_pay s) m (tag m + 1000)) (qw_pver (mupd (q_pver s) m n) s)) t
+                (qpc_set (qview_set x (vupd (q_view x) (CPay m) n)) QLock), [(n_put, tag m)])
       else Some (go QLock, [])
     end
   | QChk =>
     if q_is_prod s t then
       if Z.eqb (q_cnt s) (q_cap s) then Some (qset (qbad s (Z.eqb (in_flight s) (q_cap s))) t (qpc_set x QWait), [])
       else
-        Some ({| q_cap := q_cap s; q_np := q_np s; q_datas := zupd (q_datas s) (q_put s) (Some m); q_take := q_take s;
-                 q_put := ring_next (q_put s) (q_cap s); q_cnt := q_cnt s + 1; q_mx := q_mx s; q_pay := q_pay s;
-                 q_putl := q_putl s ++ [m]; q_taken := q_taken s; q_badwait := q_badwait s;
-                 q_thr := upd (q_thr s) t (qpc_set x QSig) |}, [])
+        (* enqueue: datas[put_idx] = data *)
+        let i := q_put s in
+        let n := S (q_sver s i) in
+        Some (qset (qw_datas (zupd (q_datas s) i (Some m)) (qw_sver (zupd (q_sver s) i n)
+                   (qw_put (ring_next i (q_cap s)) (qw_cnt (q_cnt s + 1) (qw_putl (q_putl s ++ [m]) s))))) t
+                (qpc_set (qview_set x (vupd (q_view x) (CSlot i) n)) QSig), [])
     else
       if Z.eqb (q_cnt s) 0 then Some (qset (qbad s (Z.eqb (in_flight s) 0)) t (qpc_set x QWait), [])
       else
-        let d := q_datas s (q_take s) in
-        Some ({| q_cap := q_cap s; q_np := q_np s; q_datas := q_datas s; q_take := ring_next (q_take s) (q_cap s);
-                 q_put := q_put s; q_cnt := q_cnt s - 1; q_mx := q_mx s; q_pay := q_pay s;
-                 q_putl := q_putl s; q_taken := q_taken s ++ [d]; q_badwait := q_badwait s;
-                 q_thr := upd (q_thr s) t {| q_pc := QSig; q_seq := q_seq x; q_todo := q_todo x; q_d := d |} |}, [])
+        (* dequeue: data = datas[take_idx] *)
+        let i := q_take s in
+        let d := q_datas s i in
+        let cov := Nat.eqb (vget (q_view x) (CSlot i)) (q_sver s i) in
+        Some (qset (qunc (qw_take (ring_next i (q_cap s)) (qw_cnt (q_cnt s - 1) (qw_taken (q_taken s ++ [d]) s))) cov) t
+                {| q_pc := QSig; q_seq := q_seq x; q_todo := q_todo x; q_d := d; q_view := q_view x |}, [])
   | QAfterSig => Some (go QUnlock, [])
   | QRet =>
-    let x' := {| q_pc := Q0; q_seq := S (q_seq x); q_todo := pred (q_todo x); q_d := q_d x |} in
+    let x' := {| q_pc := Q0; q_seq := S (q_seq x); q_todo := pred (q_todo x); q_d := q_d x; q_view := q_view x |} in
     if q_is_prod s t then Some (qset s t x', [(n_ok, tag m)])
-    else Some (qset s t x', [(n_got, tagopt (q_d x)); (n_fld, match q_d x with Some m' => q_pay s m' | None => -1 end)])
+    else
+      (* harness: the consumer reads the payload of the item it took *)
+      let cov := match q_d x with Some m' => Nat.eqb (vget (q_view x) (CPay m')) (q_pver s m') | None => true end in
+      Some (qset (qunc s cov) t x',
+            [(n_got, tagopt (q_d x)); (n_fld, match q_d x with Some m' => q_pay s m' | None => -1 end)])
   | _ => None
   end.
 
@@ -124,11 +165,13 @@ Definition qop (nthreads : nat) (s : qsys) (t : nat) (ch : nat) : option (qsys *
   let x := q_thr s t in
   let go p := qset s t (qpc_set x p) in
   let mycv := if q_waits_nf s t then cell_cvnf else cell_cvne in
+  let acq p := qset (qmx_set s 1) t (qpc_set (qview_set x (vjoin (q_view x) (q_mst s))) p) in
+  let rel p := qset (qw_mst (q_view x) (qmx_set s 0)) t (qpc_set x p) in
   match q_pc x with
-  | QLock => if Z.eqb (q_mx s) 0 then Some (qset (qmx_set s 1) t (qpc_set x QChk), LEv (Ev OMlock cell_mx MoNone 0 0 0)) else None
-  | QWait => Some (qset (qmx_set s 0) t (qpc_set x QBlocked), LEv (Ev OCvwait mycv MoNone 0 0 0))
+  | QLock => if Z.eqb (q_mx s) 0 then Some (acq QChk, LEv (Ev OMlock cell_mx MoNone 0 0 0)) else None
+  | QWait => Some (rel QBlocked, LEv (Ev OCvwait mycv MoNone 0 0 0))
   | QBlocked => if Nat.eqb ch 1 then Some (go QWoken, LEv (Ev OCvwoke mycv MoNone 1 0 0)) else None
-  | QWoken => if Z.eqb (q_mx s) 0 then Some (qset (qmx_set s 1) t (qpc_set x QChk), LEv (Ev OCvwoke mycv MoNone 0 0 0)) else None
+  | QWoken => if Z.eqb (q_mx s) 0 then Some (acq QChk, LEv (Ev OCvwoke mycv MoNone 0 0 0)) else None
   | QSig =>
     (* a producer notifies not_empty (consumers sleep there), a consumer notifies not_full *)
     let nf := negb (q_is_prod s t) in
@@ -139,7 +182,7 @@ Definition qop (nthreads : nat) (s : qsys) (t : nat) (ch : nat) : option (qsys *
       Some (qset s1 t (qpc_set (q_thr s1 t) QAfterSig), LEv (Ev OCvsig cv MoNone 1 (Z.of_nat u) 0))
     | None => Some (go QAfterSig, LEv (Ev OCvsig cv MoNone 0 (-1) 0))
     end
-  | QUnlock => Some (qset (qmx_set s 0) t (qpc_set x QRet), LEv (Ev OMunlock cell_mx MoNone 0 0 0))
+  | QUnlock => Some (rel QRet, LEv (Ev OMunlock cell_mx MoNone 0 0 0))
   | QFin => Some (go QDone, LExit)
   | _ => None
   end.
@@ -166,9 +209,10 @@ Definition qstep (nthreads : nat) (s : qsys) (t ch : nat) : option (qsys * label
 
 Definition qinit (cap : Z) (np nthreads : nat) (ks : nat -> nat) : qsys :=
   {| q_cap := cap; q_np := np; q_datas := fun _ => None; q_take := 0; q_put := 0; q_cnt := 0; q_mx := 0;
-     q_pay := fun _ => 0; q_putl := []; q_taken := []; q_badwait := 0;
-     q_thr := fun t => if Nat.ltb t nthreads then {| q_pc := Q0; q_seq := 0; q_todo := ks t; q_d := None |}
-                       else {| q_pc := QDone; q_seq := 0; q_todo := 0; q_d := None |} |}.
+     q_mst := vbot; q_sver := fun _ => 0%nat; q_pay := fun _ => 0; q_pver := fun _ => 0%nat;
+     q_putl := []; q_taken := []; q_badwait := 0; q_uncov := 0;
+     q_thr := fun t => if Nat.ltb t nthreads then {| q_pc := Q0; q_seq := 0; q_todo := ks t; q_d := None; q_view := vbot |}
+                       else {| q_pc := QDone; q_seq := 0; q_todo := 0; q_d := None; q_view := vbot |} |}.
 
 (* ------------------------------------------------------------------ *)
 (* 2. double buffer: reader is thread 0, writers are threads 1..nw *)
@@ -186,34 +230,77 @@ Inductive dpc :=
 Definition d_is_plain (p : dpc) : bool :=
   match p with D0 | DCall | DChk | DAfterSig | DRet _ | E0 | EChk | EAfterSig | ERet => true | _ => false end.
 
-Record dthread := { d_pc : dpc; d_seq : nat; d_todo : nat; d_tries : nat }.
+Record dthread := { d_pc : dpc; d_seq : nat; d_todo : nat; d_tries : nat; d_view : view }.
 Record dsys := {
   d_cap : Z;
   d_nonblock : bool;
   d_maxtry : nat;
   d_nw : nat;
-  d_datas : bool -> Z -> option msg;    (* buf[0] (false) and buf[1] (true) *)
+  d_datas : bool -> Z -> option msg;
   d_cnt : bool -> Z;
-  d_front : bool;                       (* front = &buf[d_front], back = the other one *)
+  d_front : bool;
   d_mx : Z;
+  d_mst : view;
+  d_sver : Z -> nat;
   d_pay : msg -> Z;
-  d_written : list msg;                 (* ghost: accepted items in lock order *)
-  d_read : list (option msg);           (* ghost: the batches handed to the reader, concatenated *)
-  d_got : nat;                          (* reader: items received so far *)
+  d_pver : msg -> nat;
+  d_written : list msg;
+  d_read : list (option msg);
+  d_got : nat;
+  d_badwait : nat;
+  d_uncov : nat;
   d_thr : nat -> dthread;
 }.
+Definition dw_cap (v : Z) (s : dsys) : dsys :=
+  {| d_cap := v; d_nonblock := d_nonblock s; d_maxtry := d_maxtry s; d_nw := d_nw s; d_datas := d_datas s; d_cnt := d_cnt s; d_front := d_front s; d_mx := d_mx s; d_mst := d_mst s; d_sver := d_sver s; d_pay := d_pay s; d_pver := d_pver s; d_written := d_written s; d_read := d_read s; d_got := d_got s; d_badwait := d_badwait s; d_uncov := d_uncov s; d_thr := d_thr s |}.
+Definition dw_nonblock (v : bool) (s : dsys) : dsys :=
+  {| d_cap := d_cap s; d_nonblock := v; d_maxtry := d_maxtry s; d_nw := d_nw s; d_datas := d_datas s; d_cnt := d_cnt s; d_front := d_front s; d_mx := d_mx s; d_mst := d_mst s; d_sver := d_sver s; d_pay := d_pay s; d_pver := d_pver s; d_written := d_written s; d_read := d_read s; d_got := d_got s; d_badwait := d_badwait s; d_uncov := d_uncov s; d_thr := d_thr s |}.
+Definition dw_maxtry (v : nat) (s : dsys) : dsys :=
+  {| d_cap := d_cap s; d_nonblock := d_nonblock s; d_maxtry := v; d_nw := d_nw s; d_datas := d_datas s; d_cnt := d_cnt s; d_front := d_front s; d_mx := d_mx s; d_mst := d_mst s; d_sver := d_sver s; d_pay := d_pay s; d_pver := d_pver s; d_written := d_written s; d_read := d_read s; d_got := d_got s; d_badwait := d_badwait s; d_uncov := d_uncov s; d_thr := d_thr s |}.
+Definition dw_nw (v : nat) (s : dsys) : dsys :=
+  {| d_cap := d_cap s; d_nonblock := d_nonblock s; d_maxtry := d_maxtry s; d_nw := v; d_datas := d_datas s; d_cnt := d_cnt s; d_front := d_front s; d_mx := d_mx s; d_mst := d_mst s; d_sver := d_sver s; d_pay := d_pay s; d_pver := d_pver s; d_written := d_written s; d_read := d_read s; d_got := d_got s; d_badwait := d_badwait s; d_uncov := d_uncov s; d_thr := d_thr s |}.
+Definition dw_datas (v : bool -> Z -> option msg) (s : dsys) : dsys :=
+  {| d_cap := d_cap s; d_nonblock := d_nonblock s; d_maxtry := d_maxtry s; d_nw := d_nw s; d_datas := v; d_cnt := d_cnt s; d_front := d_front s; d_mx := d_mx s; d_mst := d_mst s; d_sver := d_sver s; d_pay := d_pay s; d_pver := d_pver s; d_written := d_written s; d_read := d_read s; d_got := d_got s; d_badwait := d_badwait s; d_uncov := d_uncov s; d_thr := d_thr s |}.
+Definition dw_cnt (v : bool -> Z) (s : dsys) : dsys :=
+  {| d_cap := d_cap s; d_nonblock := d_nonblock s; d_maxtry := d_maxtry s; d_nw := d_nw s; d_datas := d_datas s; d_cnt := v; d_front := d_front s; d_mx := d_mx s; d_mst := d_mst s; d_sver := d_sver s; d_pay := d_pay s; d_pver := d_pver s; d_written := d_written s; d_read := d_read s; d_got := d_got s; d_badwait := d_badwait s; d_uncov := d_uncov s; d_thr := d_thr s |}.
+Definition dw_front (v : bool) (s : dsys) : dsys :=
+  {| d_cap := d_cap s; d_nonblock := d_nonblock s; d_maxtry := d_maxtry s; d_nw := d_nw s; d_datas := d_datas s; d_cnt := d_cnt s; d_front := v; d_mx := d_mx s; d_mst := d_mst s; d_sver := d_sver s; d_pay := d_pay s; d_pver := d_pver s; d_written := d_written s; d_read := d_read s; d_got := d_got s; d_badwait := d_badwait s; d_uncov := d_uncov s; d_thr := d_thr s |}.
+Definition dw_mx (v : Z) (s : dsys) : dsys :=
+  {| d_cap := d_cap s; d_nonblock := d_nonblock s; d_maxtry := d_maxtry s; d_nw := d_nw s; d_datas := d_datas s; d_cnt := d_cnt s; d_front := d_front s; d_mx := v; d_mst := d_mst s; d_sver := d_sver s; d_pay := d_pay s; d_pver := d_pver s; d_written := d_written s; d_read := d_read s; d_got := d_got s; d_badwait := d_badwait s; d_uncov := d_uncov s; d_thr := d_thr s |}.
+Definition dw_mst (v : view) (s : dsys) : dsys :=
+  {| d_cap := d_cap s; d_nonblock := d_nonblock s; d_maxtry := d_maxtry s; d_nw := d_nw s; d_datas := d_datas s; d_cnt := d_cnt s; d_front := d_front s; d_mx := d_mx s; d_mst := v; d_sver := d_sver s; d_pay := d_pay s; d_pver := d_pver s; d_written := d_written s; d_read := d_read s; d_got := d_got s; d_badwait := d_badwait s; d_uncov := d_uncov s; d_thr := d_thr s |}.
+Definition dw_sver (v : Z -> nat) (s : dsys) : dsys :=
+  {| d_cap := d_cap s; d_nonblock := d_nonblock s; d_maxtry := d_maxtry s; d_nw := d_nw s; d_datas := d_datas s; d_cnt := d_cnt s; d_front := d_front s; d_mx := d_mx s; d_mst := d_mst s; d_sver := v; d_pay := d_pay s; d_pver := d_pver s; d_written := d_written s; d_read := d_read s; d_got := d_got s; d_badwait := d_badwait s; d_uncov := d_uncov s; d_thr := d_thr s |}.
+Definition dw_pay (v : msg -> Z) (s : dsys) : dsys :=
+  {| d_cap := d_cap s; d_nonblock := d_nonblock s; d_maxtry := d_maxtry s; d_nw := d_nw s; d_datas := d_datas s; d_cnt := d_cnt s; d_front := d_front s; d_mx := d_mx s; d_mst := d_mst s; d_sver := d_sver s; d_pay := v; d_pver := d_pver s; d_written := d_written s; d_read := d_read s; d_got := d_got s; d_badwait := d_badwait s; d_uncov := d_uncov s; d_thr := d_thr s |}.
+Definition dw_pver (v : msg -> nat) (s : dsys) : dsys :=
+  {| d_cap := d_cap s; d_nonblock := d_nonblock s; d_maxtry := d_maxtry s; d_nw := d_nw s; d_datas := d_datas s; d_cnt := d_cnt s; d_front := d_front s; d_mx := d_mx s; d_mst := d_mst s; d_sver := d_sver s; d_pay := d_pay s; d_pver := v; d_written := d_written s; d_read := d_read s; d_got := d_got s; d_badwait := d_badwait s; d_uncov := d_uncov s; d_thr := d_thr s |}.
+Definition dw_written (v : list msg) (s : dsys) : dsys :=
+  {| d_cap := d_cap s; d_nonblock := d_nonblock s; d_maxtry := d_maxtry s; d_nw := d_nw s; d_datas := d_datas s; d_cnt := d_cnt s; d_front := d_front s; d_mx := d_mx s; d_mst := d_mst s; d_sver := d_sver s; d_pay := d_pay s; d_pver := d_pver s; d_written := v; d_read := d_read s; d_got := d_got s; d_badwait := d_badwait s; d_uncov := d_uncov s; d_thr := d_thr s |}.
+Definition dw_read (v : list (option msg)) (s : dsys) : dsys :=
+  {| d_cap := d_cap s; d_nonblock := d_nonblock s; d_maxtry := d_maxtry s; d_nw := d_nw s; d_datas := d_datas s; d_cnt := d_cnt s; d_front := d_front s; d_mx := d_mx s; d_mst := d_mst s; d_sver := d_sver s; d_pay := d_pay s; d_pver := d_pver s; d_written := d_written s; d_read := v; d_got := d_got s; d_badwait := d_badwait s; d_uncov := d_uncov s; d_thr := d_thr s |}.
+Definition dw_got (v : nat) (s : dsys) : dsys :=
+  {| d_cap := d_cap s; d_nonblock := d_nonblock s; d_maxtry := d_maxtry s; d_nw := d_nw s; d_datas := d_datas s; d_cnt := d_cnt s; d_front := d_front s; d_mx := d_mx s; d_mst := d_mst s; d_sver := d_sver s; d_pay := d_pay s; d_pver := d_pver s; d_written := d_written s; d_read := d_read s; d_got := v; d_badwait := d_badwait s; d_uncov := d_uncov s; d_thr := d_thr s |}.
+Definition dw_badwait (v : nat) (s : dsys) : dsys :=
+  {| d_cap := d_cap s; d_nonblock := d_nonblock s; d_maxtry := d_maxtry s; d_nw := d_nw s; d_datas := d_datas s; d_cnt := d_cnt s; d_front := d_front s; d_mx := d_mx s; d_mst := d_mst s; d_sver := d_sver s; d_pay := d_pay s; d_pver := d_pver s; d_written := d_written s; d_read := d_read s; d_got := d_got s; d_badwait := v; d_uncov := d_uncov s; d_thr := d_thr s |}.
+Definition dw_uncov (v : nat) (s : dsys) : dsys :=
+  {| d_cap := d_cap s; d_nonblock := d_nonblock s; d_maxtry := d_maxtry s; d_nw := d_nw s; d_datas := d_datas s; d_cnt := d_cnt s; d_front := d_front s; d_mx := d_mx s; d_mst := d_mst s; d_sver := d_sver s; d_pay := d_pay s; d_pver := d_pver s; d_written := d_written s; d_read := d_read s; d_got := d_got s; d_badwait := d_badwait s; d_uncov := v; d_thr := d_thr s |}.
+Definition dw_thr (v : nat -> dthread) (s : dsys) : dsys :=
+  {| d_cap := d_cap s; d_nonblock := d_nonblock s; d_maxtry := d_maxtry s; d_nw := d_nw s; d_datas := d_datas s; d_cnt := d_cnt s; d_front := d_front s; d_mx := d_mx s; d_mst := d_mst s; d_sver := d_sver s; d_pay := d_pay s; d_pver := d_pver s; d_written := d_written s; d_read := d_read s; d_got := d_got s; d_badwait := d_badwait s; d_uncov := d_uncov s; d_thr := v |}.
 
-Definition dset (s : dsys) (t : nat) (x : dthread) : dsys :=
-  {| d_cap := d_cap s; d_nonblock := d_nonblock s; d_maxtry := d_maxtry s; d_nw := d_nw s; d_datas := d_datas s;
-     d_cnt := d_cnt s; d_front := d_front s; d_mx := d_mx s; d_pay := d_pay s; d_written := d_written s;
-     d_read := d_read s; d_got := d_got s; d_thr := upd (d_thr s) t x |}.
+Definition dset (s : dsys) (t : nat) (x : dthread) : dsys := dw_thr (upd (d_thr s) t x) s.
 Definition dpc_set (x : dthread) (p : dpc) : dthread :=
-  {| d_pc := p; d_seq := d_seq x; d_todo := d_todo x; d_tries := d_tries x |}.
-Definition dmx_set (s : dsys) (v : Z) : dsys :=
-  {| d_cap := d_cap s; d_nonblock := d_nonblock s; d_maxtry := d_maxtry s; d_nw := d_nw s; d_datas := d_datas s;
-     d_cnt := d_cnt s; d_front := d_front s; d_mx := v; d_pay := d_pay s; d_written := d_written s;
-     d_read := d_read s; d_got := d_got s; d_thr := d_thr s |}.
+  {| d_pc := p; d_seq := d_seq x; d_todo := d_todo x; d_tries := d_tries x; d_view := d_view x |}.
+Definition dview_set (x : dthread) (v : view) : dthread :=
+  {| d_pc := d_pc x; d_seq := d_seq x; d_todo := d_todo x; d_tries := d_tries x; d_view := v |}.
+Definition dmx_set (s : dsys) (v : Z) : dsys := dw_mx v s.
+Definition dbad (s : dsys) (ok : bool) : dsys := dw_badwait (if ok then d_badwait s else S (d_badwait s)) s.
 Definition bupd {A} (f : bool -> A) (b : bool) (x : A) : bool -> A := fun c => if Bool.eqb c b then x else f c.
+(* the plain cell of entry i of buffer b *)
+Definition dcode (b : bool) (i : Z) : Z := 2 * i + (if b then 1 else 0).
+Definition dcell (b : bool) (i : Z) : pcell := CSlot (dcode b i).
+(* accepted items not yet handed to the reader (ghost: from the two histories, not from cnt) *)
+Definition d_pending (s : dsys) : Z := Z.of_nat (length (d_written s)) - Z.of_nat (length (d_read s)).
 
 (* the first n entries of a buffer *)
 Fixpoint batch (f : Z -> option msg) (n : nat) : list (option msg) :=
@@ -222,6 +309,14 @@ Fixpoint batch_notes (pay : msg -> Z) (l : list (option msg)) : list (nat * Z) :
   match l with
   | [] => []
   | d :: r => (n_got, tagopt d) :: (n_fld, match d with Some m' => pay m' | None => -1 end) :: batch_notes pay r
+  end.
+(* are the first n entries of buffer b, and the payloads they point to, covered by the view v? *)
+Fixpoint batch_cov (s : dsys) (v : view) (b : bool) (n : nat) : bool :=
+  match n with
+  | O => true
+  | S k =>
+    batch_cov s v b k && Nat.eqb (vget v (dcell b (Z.of_nat k))) (d_sver s (dcode b (Z.of_nat k))) &&
+    match d_datas s b (Z.of_nat k) with Some m' => Nat.eqb (vget v (CPay m')) (d_pver s m') | None => true end
   end.
 
 Definition dmicro (s : dsys) (t : nat) : option (dsys * list (nat * Z)) :=
@@ -234,48 +329,48 @@ Definition dmicro (s : dsys) (t : nat) : option (dsys * list (nat * Z)) :=
     match d_todo x with
     | O => Some (go DFin, [])
     | S _ =>
-      Some ({| d_cap := d_cap s; d_nonblock := d_nonblock s; d_maxtry := d_maxtry s; d_nw := d_nw s; d_datas := d_datas s;
-               d_cnt := d_cnt s; d_front := d_front s; d_mx := d_mx s; d_pay := mupd (d_pay s) m (tag m + 1000);
-               d_written := d_written s; d_read := d_read s; d_got := d_got s;
-               d_thr := upd (d_thr s) t (dpc_set x DCall) |}, [(n_put, tag m)])
+      let n := S (d_pver s m) in
+      Some (dset (dw_pay (mupd (d_pay s) m (tag m + 1000)) (dw_pver (mupd (d_pver s) m n) s)) t
+              (dpc_set (dview_set x (vupd (d_view x) (CPay m) n)) DCall), [(n_put, tag m)])
     end
   | DCall => Some (go DLock, [])
   | DChk =>
     if Z.eqb (d_cnt s back) (d_cap s) then
-      if d_nonblock s then Some (go (DUnlock false), []) else Some (go DWait, [])
+      (* refused (non-blocking) or put to sleep: ghost check that the back buffer really is full *)
+      let s1 := dbad s (Z.eqb (d_pending s) (d_cap s)) in
+      if d_nonblock s then Some (dset s1 t (dpc_set x (DUnlock false)), []) else Some (dset s1 t (dpc_set x DWait), [])
     else
-      Some ({| d_cap := d_cap s; d_nonblock := d_nonblock s; d_maxtry := d_maxtry s; d_nw := d_nw s;
-               d_datas := bupd (d_datas s) back (zupd (d_datas s back) (d_cnt s back) (Some m));
-               d_cnt := bupd (d_cnt s) back (d_cnt s back + 1); d_front := d_front s; d_mx := d_mx s; d_pay := d_pay s;
-               d_written := d_written s ++ [m]; d_read := d_read s; d_got := d_got s;
-               d_thr := upd (d_thr s) t (dpc_set x DSig) |}, [])
+      let i := d_cnt s back in
+      let n := S (d_sver s (dcode back i)) in
+      Some (dset (dw_datas (bupd (d_datas s) back (zupd (d_datas s back) i (Some m)))
+                 (dw_sver (zupd (d_sver s) (dcode back i) n)
+                 (dw_cnt (bupd (d_cnt s) back (i + 1)) (dw_written (d_written s ++ [m]) s)))) t
+              (dpc_set (dview_set x (vupd (d_view x) (dcell back i) n)) DSig), [])
   | DAfterSig => Some (go (DUnlock true), [])
   | DRet true =>
-    Some (dset s t {| d_pc := D0; d_seq := S (d_seq x); d_todo := pred (d_todo x); d_tries := 0 |}, [(n_ok, tag m)])
+    Some (dset s t {| d_pc := D0; d_seq := S (d_seq x); d_todo := pred (d_todo x); d_tries := 0; d_view := d_view x |}, [(n_ok, tag m)])
   | DRet false =>
     let tr := S (d_tries x) in
     if negb (Nat.eqb (d_maxtry s) 0) && Nat.leb (d_maxtry s) tr
-    then Some (dset s t {| d_pc := D0; d_seq := S (d_seq x); d_todo := pred (d_todo x); d_tries := 0 |},
+    then Some (dset s t {| d_pc := D0; d_seq := S (d_seq x); d_todo := pred (d_todo x); d_tries := 0; d_view := d_view x |},
                [(n_full, tag m); (n_giveup, tag m)])
-    else Some (dset s t {| d_pc := DRetry; d_seq := d_seq x; d_todo := d_todo x; d_tries := tr |}, [(n_full, tag m)])
+    else Some (dset s t {| d_pc := DRetry; d_seq := d_seq x; d_todo := d_todo x; d_tries := tr; d_view := d_view x |}, [(n_full, tag m)])
   | E0 =>
     (* while (got < total) *)
     if Nat.ltb (d_got s) (d_todo x) then Some (go ELock, []) else Some (go EFin, [])
   | EChk =>
-    if Z.eqb (d_cnt s back) 0 then Some (go EWait, [])
+    if Z.eqb (d_cnt s back) 0 then Some (dset (dbad s (Z.eqb (d_pending s) 0)) t (dpc_set x EWait), [])
     else
       (* buf->front->cnt = 0; swap front and back *)
-      Some ({| d_cap := d_cap s; d_nonblock := d_nonblock s; d_maxtry := d_maxtry s; d_nw := d_nw s; d_datas := d_datas s;
-               d_cnt := bupd (d_cnt s) (d_front s) 0; d_front := back; d_mx := d_mx s; d_pay := d_pay s;
-               d_written := d_written s; d_read := d_read s ++ batch (d_datas s back) (Z.to_nat (d_cnt s back));
-               d_got := d_got s; d_thr := upd (d_thr s) t (dpc_set x ESig) |}, [])
+      Some (dset (dw_cnt (bupd (d_cnt s) (d_front s) 0) (dw_front back
+                 (dw_read (d_read s ++ batch (d_datas s back) (Z.to_nat (d_cnt s back))) s))) t (dpc_set x ESig), [])
   | EAfterSig => Some (go EUnlock, [])
   | ERet =>
-    let b := batch (d_datas s (d_front s)) (Z.to_nat (d_cnt s (d_front s))) in
-    Some ({| d_cap := d_cap s; d_nonblock := d_nonblock s; d_maxtry := d_maxtry s; d_nw := d_nw s; d_datas := d_datas s;
-             d_cnt := d_cnt s; d_front := d_front s; d_mx := d_mx s; d_pay := d_pay s;
-             d_written := d_written s; d_read := d_read s; d_got := (d_got s + length b)%nat;
-             d_thr := upd (d_thr s) t (dpc_set x E0) |},
+    (* harness: the reader walks the batch (entries and payloads) outside the lock *)
+    let n := Z.to_nat (d_cnt s (d_front s)) in
+    let b := batch (d_datas s (d_front s)) n in
+    let cov := batch_cov s (d_view x) (d_front s) n in
+    Some (dset (dw_got (d_got s + length b)%nat (dw_uncov (if cov then d_uncov s else S (d_uncov s)) s)) t (dpc_set x E0),
           (n_batch, d_cnt s (d_front s)) :: batch_notes (d_pay s) b)
   | _ => None
   end.
@@ -297,11 +392,13 @@ Definition d_pick (s : dsys) (ch : nat) : option nat :=
 Definition dop (s : dsys) (t : nat) (ch : nat) : option (dsys * label) :=
   let x := d_thr s t in
   let go p := dset s t (dpc_set x p) in
+  let acq p := dset (dmx_set s 1) t (dpc_set (dview_set x (vjoin (d_view x) (d_mst s))) p) in
+  let rel p := dset (dw_mst (d_view x) (dmx_set s 0)) t (dpc_set x p) in
   match d_pc x with
-  | DLock => if Z.eqb (d_mx s) 0 then Some (dset (dmx_set s 1) t (dpc_set x DChk), LEv (Ev OMlock cell_mx MoNone 0 0 0)) else None
-  | DWait => Some (dset (dmx_set s 0) t (dpc_set x DBlocked), LEv (Ev OCvwait cell_cvnf MoNone 0 0 0))
+  | DLock => if Z.eqb (d_mx s) 0 then Some (acq DChk, LEv (Ev OMlock cell_mx MoNone 0 0 0)) else None
+  | DWait => Some (rel DBlocked, LEv (Ev OCvwait cell_cvnf MoNone 0 0 0))
   | DBlocked => if Nat.eqb ch 1 then Some (go DWoken, LEv (Ev OCvwoke cell_cvnf MoNone 1 0 0)) else None
-  | DWoken => if Z.eqb (d_mx s) 0 then Some (dset (dmx_set s 1) t (dpc_set x DChk), LEv (Ev OCvwoke cell_cvnf MoNone 0 0 0)) else None
+  | DWoken => if Z.eqb (d_mx s) 0 then Some (acq DChk, LEv (Ev OCvwoke cell_cvnf MoNone 0 0 0)) else None
   | DSig =>
     match d_pc (d_thr s 0%nat) with
     | EBlocked =>
@@ -309,13 +406,13 @@ Definition dop (s : dsys) (t : nat) (ch : nat) : option (dsys * label) :=
       Some (dset s1 t (dpc_set (d_thr s1 t) DAfterSig), LEv (Ev OCvsig cell_cvne MoNone 1 0 0))
     | _ => Some (go DAfterSig, LEv (Ev OCvsig cell_cvne MoNone 0 (-1) 0))
     end
-  | DUnlock ok => Some (dset (dmx_set s 0) t (dpc_set x (DRet ok)), LEv (Ev OMunlock cell_mx MoNone 0 0 0))
+  | DUnlock ok => Some (rel (DRet ok), LEv (Ev OMunlock cell_mx MoNone 0 0 0))
   | DRetry => Some (go DCall, LEv (Ev OPlain cell_retry MoNone 0 0 0))
   | DFin => Some (go DDone, LExit)
-  | ELock => if Z.eqb (d_mx s) 0 then Some (dset (dmx_set s 1) t (dpc_set x EChk), LEv (Ev OMlock cell_mx MoNone 0 0 0)) else None
-  | EWait => Some (dset (dmx_set s 0) t (dpc_set x EBlocked), LEv (Ev OCvwait cell_cvne MoNone 0 0 0))
+  | ELock => if Z.eqb (d_mx s) 0 then Some (acq EChk, LEv (Ev OMlock cell_mx MoNone 0 0 0)) else None
+  | EWait => Some (rel EBlocked, LEv (Ev OCvwait cell_cvne MoNone 0 0 0))
   | EBlocked => if Nat.eqb ch 1 then Some (go EWoken, LEv (Ev OCvwoke cell_cvne MoNone 1 0 0)) else None
-  | EWoken => if Z.eqb (d_mx s) 0 then Some (dset (dmx_set s 1) t (dpc_set x EChk), LEv (Ev OCvwoke cell_cvne MoNone 0 0 0)) else None
+  | EWoken => if Z.eqb (d_mx s) 0 then Some (acq EChk, LEv (Ev OCvwoke cell_cvne MoNone 0 0 0)) else None
   | ESig =>
     match d_pick s ch with
     | Some u =>
@@ -323,7 +420,7 @@ Definition dop (s : dsys) (t : nat) (ch : nat) : option (dsys * label) :=
       Some (dset s1 t (dpc_set (d_thr s1 t) EAfterSig), LEv (Ev OCvsig cell_cvnf MoNone 1 (Z.of_nat u) 0))
     | None => Some (go EAfterSig, LEv (Ev OCvsig cell_cvnf MoNone 0 (-1) 0))
     end
-  | EUnlock => Some (dset (dmx_set s 0) t (dpc_set x ERet), LEv (Ev OMunlock cell_mx MoNone 0 0 0))
+  | EUnlock => Some (rel ERet, LEv (Ev OMunlock cell_mx MoNone 0 0 0))
   | EFin => Some (go EDone, LExit)
   | _ => None
   end.
@@ -349,8 +446,9 @@ Definition dstep (s : dsys) (t ch : nat) : option (dsys * label) :=
 
 Definition dinit (cap : Z) (nonblock : bool) (maxtry nw total : nat) (ks : nat -> nat) : dsys :=
   {| d_cap := cap; d_nonblock := nonblock; d_maxtry := maxtry; d_nw := nw;
-     d_datas := fun _ _ => None; d_cnt := fun _ => 0; d_front := false; d_mx := 0; d_pay := fun _ => 0;
-     d_written := []; d_read := []; d_got := 0;
-     d_thr := fun t => if Nat.eqb t 0 then {| d_pc := E0; d_seq := 0; d_todo := total; d_tries := 0 |}
-                       else if Nat.leb t nw then {| d_pc := D0; d_seq := 0; d_todo := ks t; d_tries := 0 |}
-                       else {| d_pc := DDone; d_seq := 0; d_todo := 0; d_tries := 0 |} |}.
+     d_datas := fun _ _ => None; d_cnt := fun _ => 0; d_front := false; d_mx := 0; d_mst := vbot;
+     d_sver := fun _ => 0%nat; d_pay := fun _ => 0; d_pver := fun _ => 0%nat;
+     d_written := []; d_read := []; d_got := 0; d_badwait := 0; d_uncov := 0;
+     d_thr := fun t => if Nat.eqb t 0 then {| d_pc := E0; d_seq := 0; d_todo := total; d_tries := 0; d_view := vbot |}
+                       else if Nat.leb t nw then {| d_pc := D0; d_seq := 0; d_todo := ks t; d_tries := 0; d_view := vbot |}
+                       else {| d_pc := DDone; d_seq := 0; d_todo := 0; d_tries := 0; d_view := vbot |} |}.
